@@ -110,6 +110,32 @@ def session(bindir, steps, tag, size=(24, 80), touch=False, filter_time=120, qui
         rd.cleanup()
 
 
+def noserver_session(bindir, tag, quit_key):
+    """nobody listens on the port: radar shows 'Waiting for connection'; quit must still restore the terminal"""
+    import socket
+    s_ = socket.socket()
+    s_.bind(("127.0.0.1", 0))
+    port = s_.getsockname()[1]
+    s_.close()
+    rd = apps.Radar(bindir, port, ["--lat", str(RXF[0]), "--long", str(RXF[1])])
+    try:
+        t0 = time.time()
+        while time.time() - t0 < 0.8:
+            rd.pump(0.05)
+        rd.send(apps.KEYS[quit_key])
+        status = rd.wait_exit(5)
+        out = bytes(rd.out)
+        modes = apps.modes_at_end(rd.out)
+        return [{"ev": "session_start", "tag": tag, "rx": {"lat": 0, "lon": 0}, "scale9": 120000000},
+                {"ev": "session_end", "tag": tag, "quit_sent": 1, "alive": 1 if status is None else 0, "exit": status if status is not None else -1,
+                 "panic": 1 if b"panicked" in out else 0, "termios_before": apps.termios_summary(rd.termios_before),
+                 "termios_after": apps.termios_summary(rd.termios_after()),
+                 "modes": {"mouse": max([modes.get(m, 0) for m in (1000, 1002, 1003, 1006, 1015)]), "cursor": modes.get(25, 1),
+                           "altscreen": modes.get(1049, 0)}, "panic_text": ""}]
+    finally:
+        rd.cleanup()
+
+
 KEYNAMES = ["F1", "F2", "F3", "F4", "F5", "Tab", "Enter", "Up", "Down", "Left", "Right", "+", "-", "l", "i", "h", "t", "n", "x", "Esc", "Space", "PageDown"]
 CODE2KEY = {"F(1)": "F1", "F(2)": "F2", "F(3)": "F3", "F(4)": "F4", "F(5)": "F5", "Tab": "Tab", "Up": "Up", "Down": "Down", "Left": "Left",
             "Right": "Right", "Enter": "Enter", "Char('+')": "+", "Char('-')": "-", "Char('l')": "l", "Char('t')": "t", "Char('x')": "x", "Char('q')": "q"}
@@ -216,6 +242,9 @@ def run(prop, tier, seed, rep):
         return session(bindir, **j)
     with cf.ThreadPoolExecutor(max_workers=12) as ex:
         results = list(ex.map(do, jobs))
+    for qk in ("q", "CtrlC"):
+        results.append(noserver_session(bindir, "noserver-" + qk, qk))
+        jobs.append({"tag": "noserver-" + qk})
     events = [e for r in results for e in r]
     events.append({"ev": "session_start", "tag": "cli", "rx": {"lat": 0, "lon": 0}, "scale9": 0})
     for a in CLI_BAD:
@@ -223,7 +252,7 @@ def run(prop, tier, seed, rep):
     subprocess.run(["rm", "-rf", "/tmp/radar-cli-logs"])
     starts = [i for i, e in enumerate(events) if e["ev"] == "session_start"]
     verdicts, st, tr = core.validate_events("Trace_UI", events, prop, shards=8, boundary=lambda e: e["ev"] == "session_start")
-    rep.add_trace_stats(st, tr, len(jobs))
+    rep.add_trace_stats(st, tr, len(results))
     import bisect
     drifts = list(core.LAST_INFOS)
     json.dump([{"what": d["what"], "event": events[d["index"]], "before": events[d["index"] - 1]} for d in drifts[:40]],
@@ -250,7 +279,7 @@ def run(prop, tier, seed, rep):
                       "events_by_kind": kinds, "cli_invocations": len(CLI_BAD), "model_drift": len(drifts),
                       "steps_explained_by_handler_tables": sum(kinds.get(k, 0) for k in ("key", "mouse", "draw")) - len(drifts),
                       "sessions_ending_with_quit": sum(1 for r in results if r[-1]["quit_sent"] == 1),
-                      "terminal_sizes": sorted({str(j["size"]) for j in jobs})})
+                      "terminal_sizes": sorted({str(j["size"]) for j in jobs if "size" in j})})
     rep.samples = [{"session": jobs[0]["tag"], "steps": [[x.decode("latin-1") if isinstance(x, bytes) else x for x in s_] for s_ in jobs[0]["steps"]][:6]},
                    results[0][-1]]
     rep.assumptions += ["pty driven by drivers/apps.py; the hook (guarded) logs draw/key/mouse events; a panic is recognised by its message on the terminal and the exit status",
